@@ -466,11 +466,12 @@ pub fn imports(max_items: usize, trivia: &[(&str, &str)]) -> Inputs {
     out
 }
 
-/// Whitespace spellings: every sequence of <= 3 elements over {LF, CR, CRLF, space, tab, LS}
+/// Whitespace spellings: every sequence of <= 3 elements over {LF, CR, CRLF, space, tab, LS, FF, VT}
 /// and long runs of line feeds (counter widths: 255, 256, 257, 65 536 ...), placed between two
 /// words in every markup-bearing context and between code / math items.
 pub fn ws_spellings() -> Inputs {
-    let elems: [(&str, &str); 6] = [("LF", "\n"), ("CR", "\r"), ("CRLF", "\r\n"), ("SP", " "), ("TAB", "\t"), ("LS", "\u{2028}")];
+    let elems: [(&str, &str); 8] =
+        [("LF", "\n"), ("CR", "\r"), ("CRLF", "\r\n"), ("SP", " "), ("TAB", "\t"), ("LS", "\u{2028}"), ("FF", "\u{c}"), ("VT", "\u{b}")];
     let mut spellings: Vec<(String, String)> = vec![];
     let mut cur: Vec<(String, String)> = vec![(String::new(), String::new())];
     for _ in 0..3 {
@@ -496,6 +497,8 @@ pub fn ws_spellings() -> Inputs {
         ("code_args", "#f(a,", "b)", ""),
         ("code_block", "#{a", "b}", ""),
         ("math", "$x", "y$", ""),
+        ("math_paren", "$(x", "y)$", ""),
+        ("math_args", "$fn(x,", "y)$", ""),
         ("after_hash", "#a", "b", ""),
     ];
     let mut out = vec![];
